@@ -5,7 +5,7 @@ import z3
 import common
 import e2
 import poskern
-from e2 import conj, disj
+from e2 import conj, disj, result_kind
 from mirsym import Exec, State, Opq, Agg, Ref, StrC, Val, Unsupported
 from poskern import MAXC, MAXL, valid_pos, sym_pos
 
@@ -168,6 +168,171 @@ def ob_sources_attached(run, mir, rp):
         run.samples.append({"obligation": ob.id, "with_source_sites": n})
     except Unsupported as e:
         ob.inconclusive(str(e))
+
+
+def ob_errors_paired(run, mir, rp):
+    """The error that is decorated with a (source, path) pair was produced from the item paired with it."""
+    ob = run.ob("errors-paired-with-their-file", "E2", "mamba_to_python: every closure that decorates errors with a (source text, path) pair runs the stage "
+                "(parse / check / gen_arguments) itself, on the item it received together with that pair, and decorates exactly the errors that "
+                "call returned - the pairing of an error with a file is never made after results of several files were filtered or collected",
+                ["mamba_to_python::{closure}s (parse, check, generate) incl. nested closures"])
+    import mirsym
+    PAIR = "&(std::string::String, Option<PathBuf>)"
+    try:
+        claims, n_sites, n_closures = [], 0, 0
+        ex = Exec(mir, max_paths=2000)
+        outer = [(n, f) for n, f in mir.fns.items() if re.match(r"^mamba_to_python::\{closure#\d+\}$", n)]
+        for n, f in outer:
+            st = State()
+            src, path = Opq(z3.Const("src", Val), "String"), Opq(z3.Const("path", Val), "Option<PathBuf>")
+            pair = Ref(ex.new_cell(st, Agg("tuple", None, [src, path])))
+            pty = f.args[1][1].strip()
+            items = []
+
+            def mkc(t, i):
+                t = t.strip()
+                if t == PAIR:
+                    return pair
+                v = Opq(z3.Const(f"item{i}", Val), t.lstrip("&"))
+                items.append(v)
+                return Ref(ex.new_cell(st, v)) if t.startswith("&") else v
+            if pty.startswith("("):
+                param = Agg("tuple", None, [mkc(t, i) for i, t in enumerate(mirsym.split_top(pty[1:-1]))])
+            else:
+                param = mkc(pty, 0)
+            if PAIR not in pty:
+                continue                    # not a per-file closure
+            envty = f.args[0][1].strip()
+            env = Agg("closure", envty.lstrip("&").replace("mut ", "").strip(), [Ref(ex.new_cell(st, Opq(z3.Const(f"cap{i}", Val), "?"))) for i in range(4)])
+            ends = e2.run_kernel(run, ex, f, [Ref(ex.new_cell(st, env)) if envty.startswith("&") else env, param], st)
+            n_closures += 1
+            for p in ends:
+                s_ = p.state
+                ws = [e_ for e_ in p.events if e_["name"].endswith("with_source")]
+                maps = [e_ for e_ in p.events if e_["name"] == "Iterator::map" and isinstance(e_["args"][1], Agg) and e_["args"][1].ty == "closure"
+                        and (mirsym.fn_of_value(ex, e_["args"][1]) is not None)
+                        and any("with_source" in str(st_) for st_ in _fn_text(mirsym.fn_of_value(ex, e_["args"][1])))]
+                if not ws and not maps:
+                    continue
+                n_sites += 1
+                stage = [e_ for e_ in p.events if e_["name"].split("::")[-1] in ("parse", "check", "gen_arguments")]
+                if len(stage) != 1:
+                    claims.append(z3.Not(conj(p.cond)))      # errors decorated here were not produced here
+                    continue
+                sg = stage[0]
+                own = ex.to_val(s_, src) if sg["name"].split("::")[-1] == "parse" else (ex.to_val(s_, items[0]) if items else None)
+                if own is None:
+                    claims.append(z3.Not(conj(p.cond)))
+                    continue
+                errp = ex.to_val(s_, ex.project(s_, ex.project(s_, sg["ret"], ("v", "Err")), ("f", 0), "?"))
+                cl = [sg["argvals"][0] == own]
+                for w in ws:
+                    a_src = w["args"][1]
+                    a_src = ex.read_ref(s_, a_src) if isinstance(a_src, Ref) else a_src
+                    ok_src = isinstance(a_src, Agg) and a_src.variant == "Some"
+                    cl += [z3.BoolVal(ok_src), w["argvals"][2] == ex.to_val(s_, path), w["argvals"][0] == errp]
+                    if ok_src:
+                        cl.append(ex.to_val(s_, a_src.fields[0]) == ex.to_val(s_, src))
+                for m_ in maps:
+                    caps = [ex.read_ref(s_, c) if isinstance(c, Ref) else c for c in m_["args"][1].fields]
+                    its = [e_ for e_ in p.events if e_["name"].split("::")[-1] in ("iter", "into_iter") and z3.eq(ex.to_val(s_, e_["ret"]), m_["argvals"][0])]
+                    cl.append(z3.BoolVal(len(caps) == 2 and len(its) == 1))
+                    if len(caps) == 2 and len(its) == 1:
+                        cl += [ex.to_val(s_, caps[0]) == ex.to_val(s_, src), ex.to_val(s_, caps[1]) == ex.to_val(s_, path), its[0]["argvals"][0] == errp]
+                claims.append(z3.Implies(conj(p.cond), conj(cl)))
+        if n_sites < 3 or n_closures < 3:
+            raise Unsupported(f"{n_sites} decorating paths in {n_closures} per-file closures")
+
+        def replay(model):
+            from props import C13
+            bad = []
+            good = "def x := 1\nprint(x)\n"
+            faulty = {"type-error": ("def ok := 1\n\n\ndef y: Int := \"oops\"\n", 4), "undefined-name": ("def ok := 1\nprint(zz)\n", 2)}
+            for kind, (txt, line) in faulty.items():
+                for files in ({"src/a.mamba": good, "src/b.mamba": txt}, {"src/a.mamba": good, "src/b.mamba": good, "src/c.mamba": txt},
+                              {"src/a.mamba": txt, "src/b.mamba": good}):
+                    where = [k for k, v in files.items() if v == txt][0]
+                    stt, msg, _out = C13.run_project(rp, files)
+                    quoted = txt.split("\n")[line - 1]
+                    if stt != "ERR" or f"{where}:{line}:" not in msg or quoted not in msg:
+                        bad.append(f"{kind} in {where} of {sorted(files)}: status {stt}, diagnostic {msg[:200]!r}")
+            if bad:
+                return {"reproduced": True, "role": "diagnostic-names-another-file", "detail": "; ".join(bad[:2])}
+            return {"reproduced": False, "detail": "6 multi-file projects: every diagnostic names and quotes the faulty file"}
+        e2.prove(run, ob, ex, [], conj(claims), {}, replay)
+        run.samples.append({"obligation": ob.id, "decorating_paths": n_sites, "per_file_closures": n_closures})
+    except Unsupported as e:
+        ob.inconclusive(str(e))
+
+
+def ob_eof_position(run, mir, rp):
+    """The end-of-file token (where `unexpected end of file` errors point) lies inside the text."""
+    ob = run.ob("eof-position", "E2", "tokenize, from an arbitrary state at the exit of the character loop: the token vector handed to the doc-string pass is "
+                "(tokens so far ++ pending dedents) followed by one Eof token; Eof is placed one column after the END of the last token of that "
+                "vector (CaretPos::start() when there is none) - never at the lexer's cursor, which has already moved past trailing newlines",
+                ["tokenize (after the loop)"])
+    try:
+        fn = e2.find1(mir, file="src/parse/lex/mod.rs", name="tokenize")
+        ex = Exec(mir, max_paths=2000)
+        st = State()
+        ends = e2.run_kernel(run, ex, fn, [Opq(z3.Const("input", Val), "&str")], st)
+        lexf = e2.rust_struct("src/parse/lex/token.rs", "Lex")
+        posf = e2.rust_struct("src/common/position.rs", "Position")
+        claims, n = [], 0
+        for p in ends:
+            if result_kind(p) != "Ok":
+                continue
+            n += 1
+            s_ = p.state
+            ev = {k: [e_ for e_ in p.events if e_["name"] == k] for k in ("last", "CaretPos::offset_pos", "CaretPos::start", "Lex::new", "pass", "State::flush_indents")}
+            if not (len(ev["last"]) == 1 and len(ev["Lex::new"]) == 1 and len(ev["pass"]) == 1 and len(ev["State::flush_indents"]) == 1):
+                claims.append(z3.Not(conj(p.cond)))
+                continue
+            last, new, pas = ev["last"][0], ev["Lex::new"][0], ev["pass"][0]
+            vec = pas["argvals"][0]
+            shape = z3.is_app(vec) and vec.decl().name() == "seq:snoc" and z3.eq(vec.arg(0), last["argvals"][0]) and z3.eq(vec.arg(1), ex.to_val(s_, new["ret"]))
+            t0 = last["argvals"][0]
+            shape = shape and z3.is_app(t0) and t0.decl().name() == "seq:cat" and z3.eq(t0.arg(1), ex.to_val(s_, ev["State::flush_indents"][0]["ret"]))
+            cl = [z3.BoolVal(bool(shape)), ex.to_val(s_, p.ret.fields[0]) == ex.to_val(s_, pas["ret"]),
+                  new["argvals"][1] == ex.to_val(s_, Agg("Token", "Eof", []))]
+            d = ex.discr(s_, last["ret"], "Option<&Lex>")
+            lx = ex.project(s_, ex.project(s_, last["ret"], ("v", "Some")), ("f", 0), "&Lex")
+            end = ex.project(s_, ex.project(s_, lx, ("f", lexf.index("pos")), "Position"), ("f", posf.index("end")), "CaretPos")
+            if ev["CaretPos::offset_pos"]:
+                o = ev["CaretPos::offset_pos"][0]
+                cl += [d == 1, new["argvals"][0] == ex.to_val(s_, o["ret"]), o["argvals"][0] == ex.to_val(s_, end),
+                       o["args"][1] == z3.BitVecVal(1, 64) if z3.is_bv(o["args"][1]) else z3.BoolVal(False)]
+            elif ev["CaretPos::start"]:
+                cl += [d == 0, new["argvals"][0] == ex.to_val(s_, ev["CaretPos::start"][0]["ret"])]
+            else:
+                cl.append(z3.BoolVal(False))
+            claims.append(z3.Implies(conj(p.cond), conj(cl)))
+        if n < 2:
+            raise Unsupported(f"{n} Ok paths")
+
+        def replay(model):
+            bad = []
+            for src in ("def a := 1\ndef b := (2 + 3\n", "def a := 1\ndef b := (2 + 3\n\n\n", "def a := 1\ndef b := (2 + 3", "print(1\n", "def f(x: Int) -> Int =>\n    x +\n"):
+                stt, out = rp.transpile(src)
+                nlines = len(src.rstrip("\n").split("\n"))
+                m = re.search(r":(\d+):(\d+)", out)
+                if stt != "ERR" or not m or int(m.group(1)) > nlines or "<unknown>" in out.split("\n", 2)[-1][:40]:
+                    bad.append(f"{src!r}: {stt} {out[:120]!r}")
+            if bad:
+                return {"reproduced": True, "role": "eof-outside-text", "detail": "; ".join(bad[:2])}
+            return {"reproduced": False, "detail": "5 truncated programs are reported on an existing line"}
+        e2.prove(run, ob, ex, [], conj(claims), {}, replay)
+    except Unsupported as e:
+        ob.inconclusive(str(e))
+
+
+def _fn_text(fn):
+    """Names of everything the MIR function calls (for "does this closure decorate errors")."""
+    out = []
+    for b in fn.blocks.values() if isinstance(fn.blocks, dict) else fn.blocks:
+        t = getattr(b, "term", None)
+        out.append(str(t))
+    return out
 
 
 def run(run):
@@ -362,4 +527,6 @@ def run(run):
         if bad:
             run.ob("family-render", "native", "concrete renderings agree with discharged obligations").inconclusive(str(bad[:2]))
     ob_sources_attached(run, mir, rp)
+    ob_errors_paired(run, mir, rp)
+    ob_eof_position(run, mir, rp)
     rp.close()
